@@ -118,17 +118,28 @@ pub fn run_gdt(r: &mut Rep) {
                 g.append(Descriptor::kernel_code_segment());
             }
         }
-        let gr: &GlobalDescriptorTable<M> = &g;
-        let base = gr.entries().as_ptr() as u64;
-        let limit = gr.limit();
-        let used = gr.entries().len();
-        cpu().clear_events();
-        let _ = run_stepped(|| unsafe { gr.load_unsafe() });
-        let ev = cpu().evs();
-        r.ev(true);
-        if limit as usize != 8 * used - 1 || !(ev.len() == 1 && matches!(ev[0], Ev::Lgdt(l, b, _) if l == limit && b == base)) {
-            r.viol("C14|load_unsafe|lgdt-operand-is-not-the-table-address-with-its-limit", &format!("gdtload {} {}", M, appends), &format!("{:x?} expected Lgdt({:#x}, {:#x})", ev, limit, base));
+        // the same table at an address that is 0 and at one that is 8 modulo 16 (the type is only 8-byte aligned): the operand
+        // is the table's own address wherever the object lives
+        #[repr(C, align(16))]
+        struct Shifted<T> {
+            pad: u64,
+            t: T,
         }
+        let shifted: Box<Shifted<GlobalDescriptorTable<M>>> = Box::new(Shifted { pad: 0xdead_beef_dead_beef, t: (*g).clone() });
+        let aligned: Box<Shifted<(u64, GlobalDescriptorTable<M>)>> = Box::new(Shifted { pad: 0, t: (0xdead_beef_dead_beef, (*g).clone()) });
+        for (place, gr) in [("box", &*g), ("8-mod-16", &shifted.t), ("0-mod-16", &aligned.t.1)] {
+            let base = gr.entries().as_ptr() as u64;
+            let limit = gr.limit();
+            let used = gr.entries().len();
+            cpu().clear_events();
+            let _ = run_stepped(|| unsafe { gr.load_unsafe() });
+            let ev = cpu().evs();
+            r.ev(true);
+            if limit as usize != 8 * used - 1 || !(ev.len() == 1 && matches!(ev[0], Ev::Lgdt(l, b, _) if l == limit && b == base)) {
+                r.viol("C14|load_unsafe|lgdt-operand-is-not-the-table-address-with-its-limit", &format!("gdtload {} {} at {}", M, appends, place), &format!("{:x?} expected Lgdt({:#x}, {:#x}) (address modulo 16 = {})", ev, limit, base, base % 16));
+            }
+        }
+        let _ = shifted.pad;
     }
     for n in 0..=7 {
         one::<8>(r, n);
